@@ -306,6 +306,9 @@ func (r *Run) Finish(rule string, minNontrivial int, assumptions []string) int {
 	}
 	body, _ := json.MarshalIndent(ev, "", " ")
 	dir := filepath.Join(VerifDir(), "evidence")
+	if d := os.Getenv("VERIF_EVIDENCE_DIR"); d != "" {
+		dir = d // development runs against a patched tree must not overwrite the evidence of the real tree
+	}
 	_ = os.MkdirAll(dir, 0o755)
 	if err := os.WriteFile(filepath.Join(dir, r.Prop+".json"), append(body, '\n'), 0o644); err != nil {
 		fmt.Printf("cannot write evidence: %v\n", err)
